@@ -132,11 +132,11 @@ def gen_variants(seed, n, rng):
                 out.append(("%s/%s" % (P["id"], kind), kind, Q))
     return out
 
-def run_static(wd, name, res, g2=False, g3_range=(0, -1), g3_list=(), g3_both=False, shapes=False, gen_programs=(), timeout=1800,
+def run_static(wd, name, res, g2=False, g3_range=(0, -1), g3_list=(), g3_both=False, g3_canon=False, shapes=False, gen_programs=(), timeout=1800,
                workers=None):
     """One TLC run of MC_Static; returns the printed PROG records."""
     d = os.path.join(wd, name)
-    write_data(d, "StaticData", {"G2": g2, "G3Range": list(g3_range), "G3List": list(g3_list), "G3Both": g3_both,
+    write_data(d, "StaticData", {"G2": g2, "G3Range": list(g3_range), "G3List": list(g3_list), "G3Both": g3_both, "G3Canon": g3_canon,
                                  "Shapes": shapes, "GenPrograms": [for_tlc(P) for P in gen_programs]})
     cfg = os.path.join(d, "S.cfg")
     with open(cfg, "w") as f:
